@@ -40,8 +40,14 @@ func c16Op(tpl *Template, op, name int, d int64, s string) c16Result {
 	switch name {
 	case 3:
 		data["u"] = struct{ Name string }{s} // reachable as u.name through the capitalised spelling
+		if d%2 == 0 {
+			data["u"] = c16LocalUser1(s)
+		}
 	case 4:
 		data["u"] = map[string]string{"name": s}
+		if d%2 == 0 {
+			data["u"] = c16LocalUser2(s) // a second local type that prints the same name as the one of case 3
+		}
 	case 5, 6:
 		data = nil // renders without data
 	}
@@ -62,6 +68,11 @@ func c16Op(tpl *Template, op, name int, d int64, s string) c16Result {
 	switch op {
 	case 0:
 		out, ferr := tpl.String(names[name], data)
+		if name == 3 || name == 4 {
+			// absolute expectation (a process-wide cache is shared by the baseline and the run under test, so comparing
+			// the two cannot see it): the profile page shows the name of the value it was given, whatever its Go type
+			vAssert(ferr == nil && vEqStr(out, "<"+s+">"), "page-shows-the-data-of-this-call")
+		}
 		if ferr != nil {
 			return c16Result{err: strip(ferr.String())}
 		}
@@ -155,4 +166,21 @@ func HarnessC16History() {
 	} else {
 		vCover("engine-saw-stores-to-shared-state")
 	}
+}
+
+
+func c16LocalUser1(n string) any {
+	type user struct {
+		Name string
+		Age  int
+	}
+	return user{n, 1}
+}
+
+func c16LocalUser2(n string) any {
+	type user struct {
+		Age  int
+		Name string
+	}
+	return user{2, n}
 }
